@@ -60,7 +60,12 @@ def _variants(prop: str) -> List[Tuple[str, str, str]]:
         for v in sorted(os.listdir(base)) if os.path.isdir(base) else []:
             pp = os.path.join(base, v, "patch.diff")
             if os.path.exists(pp):
-                out.append((f"{dn}/{v}", pp, "silent"))
+                # a recorded false alarm (DESIGN.md section 23) is accepted for exactly the listed properties of exactly that variant
+                try:
+                    kfa = (json.load(open(os.path.join(base, v, "meta.json"))).get("known_false_alarm") or {}).get("checks", [])
+                except Exception:
+                    kfa = []
+                out.append((f"{dn}/{v}", pp, "either" if prop in kfa else "silent"))
     # repaired commits: silent, except where meta.json documents a conservative alarm of this property (then either outcome is
     # accepted: the alarm is a known over-approximation, its disappearance an improvement)
     for bank in ("repaired", "evolutions"):
@@ -107,10 +112,12 @@ def run_for(prop: str, repo: str) -> Dict:
     skipped = [n for n, e, g in results if g == "skipped"]
     # a benign variant that ends as analysis-error is not an alarm (exit 2 is never a verdict), but it is reported
     inconclusive = [n for n, e, g in results if g == "analysis-error"]
-    documented = [n for n, e, g in results if e == "either" and g == "fire"]
+    documented = [n for n, e, g in results if e == "either" and g == "fire" and not n.startswith("benign/")]
+    known_false = [n for n, e, g in results if e == "either" and g == "fire" and n.startswith("benign/")]
     failures = [f"{n}: expected {e}, got {g}" for n, e, g in results if g not in ("skipped", "analysis-error") and g != e and e != "either"]
     return {
         "repaired_commits_with_documented_conservative_alarm": len(documented),
+        "refactorings_with_recorded_false_alarm": known_false,
         "variants": len(results),
         "broken_variants_fired": len(fired),
         "benign_variants_silent": len(silent),
